@@ -126,6 +126,17 @@ theorem binding_instantiation_real (n function st i : Nat) (c : Fn.Ctx) (fv : Fn
   · rw [rel_lookup _ x _ ps' hrel, CallThm.binding_instantiation]
   · rw [hrels, relS_lookup]
 
+/-- **`this` of a call through an identifier** (§11.2.3 step 6.b, ImplicitThisValue): the `with` object when the
+    callee was found in its environment, the global object otherwise -/
+theorem this_refines (σ : FnM.St) (x : String) (h0 : WF0 σ) (res : Option Nat) :
+    effThis (modelThis (refOf σ x res)) = effThis (match res with | some j => Fn.implicitThis (absSt σ) j | none => .undef) :=
+  this_spec σ x h0 res
+
+/-- **[[HasInstance]]** (§15.3.5.3 step 4): the walk along the prototype chain of the left operand -/
+theorem hasInstance_walk_refines (σ : FnM.St) (p n x : Nat) :
+    FnM.protoWalk σ n ((σ.obj? x).bind (·.proto)) p = Fn.hasInstance.walk p (absSt σ) n x :=
+  protoWalk_spec σ p n x
+
 /-! ## the conditions are satisfiable: decidable checkers, and a concrete state -/
 
 def isArgs : FnM.OVal → Bool | .arguments .. => true | _ => false
@@ -292,5 +303,10 @@ example : (match Fn.instantiate 5 1 { env := 1, venv := 1, this := .ref Fn.gObj 
       { Fn.initSt with envs := Fn.initSt.envs ++ [{ vars := [], outer := some 0 }] } with
     | .ok _ s => (s.envs[1]?.map (·.vars)).getD []
     | _ => []) = [("a", .undef), ("g", .ref 6), ("arguments", .ref 8), ("v", .undef)] := by decide
+
+/-- a call `f()` inside `with (σ1's object 11)`: this = that object; for a callee in the function stash: the global object -/
+example : modelThis (refOf σ1 "f" (Fn.envResolve (absSt σ1) 4 2 "f")) = .ref 11 := by decide
+example : effThis (modelThis (refOf σ1 "y" (Fn.envResolve (absSt σ1) 4 2 "y"))) = .ref Fn.gObj := by decide
+example : FnM.protoWalk σ1 5 ((σ1.obj? 11).bind (·.proto)) FnM.objProto = true := by decide
 
 end OttoVerif.C01.FnThm
